@@ -81,6 +81,13 @@ t("C07", "pop-order-reversed", TI, "\t\tcase '&': // AND\n\t\t\tbi, stk = stk.Po
 t("C07", "push-true-as-two", TI, "\t\tif b {\n\t\t\treturn append(st, 1)", "\t\tif b {\n\t\t\treturn append(st, 2)", "Push:bool")
 t("C07", "logical-and-removed", TI, "\t\tcase 'A': // logical AND\n\t\t\tbi, stk = stk.PopInt()\n\t\t\tai, stk = stk.PopInt()\n\t\t\tstk = stk.Push(ai != 0 && bi != 0)\n\n", "", "op:%A")
 t("C07", "static-var-index-unchecked", TI, "\t\t\tif ch >= 'A' && ch <= 'Z' {\n\t\t\t\tsvars[int(ch-'A')], stk = stk.PopString()", "\t\t\tif ch >= 'A' {\n\t\t\t\tsvars[int(ch-'A')], stk = stk.PopString()", "index#")
+t("C07", "recall-dynamic-with-static-offset", "terminfo/terminfo.go", "\t\t\t\tstk = stk.Push(dvars[int(ch-'a')])", "\t\t\t\tstk = stk.Push(dvars[int(ch-'a')%26])", "op:%g:dynamic-variable")
+t("C07", "store-static-into-dynamic", "terminfo/terminfo.go", "\t\t\t\tsvars[int(ch-'A')], stk = stk.PopString()", "\t\t\t\tdvars[int(ch-'A')], stk = stk.PopString()", "op:%P")
+t("C07", "logical-not-inverted", "terminfo/terminfo.go", "\t\t\tstk = stk.Push(ai == 0)", "\t\t\tstk = stk.Push(ai != 0)", "op:%!:logical-not")
+t("C07", "complement-becomes-negation", "terminfo/terminfo.go", "\t\t\tstk = stk.Push(ai ^ -1)", "\t\t\tstk = stk.Push(-ai)", "op:%~:bit-complement")
+t("C07", "integer-constant-octal", "terminfo/terminfo.go", "\t\t\t\tai *= 10\n\t\t\t\tai += int(ch - '0')", "\t\t\t\tai *= 8\n\t\t\t\tai += int(ch - '0')", "op:%{n}:decimal-constant")
+t("C07", "strlen-off-by-one", "terminfo/terminfo.go", "\t\t\tstk = stk.Push(len(a))", "\t\t\tstk = stk.Push(len(a) + 1)", "op:%l:string-length")
+t("C07", "char-constant-takes-closing-quote", "terminfo/terminfo.go", "\t\t\tch, _ = pb.NextCh()\n\t\t\t_, _ = pb.NextCh() // must be ' but we don't check\n\t\t\tstk = stk.Push(int(ch))", "\t\t\t_, _ = pb.NextCh()\n\t\t\tch, _ = pb.NextCh() // must be ' but we don't check\n\t\t\tstk = stk.Push(int(ch))", "op:%'c':pushes-the-character")
 
 # ---------------------------------------------------------------- C08
 CELL = "cell.go"
